@@ -56,7 +56,8 @@ def _same_names_other_content(doc):
         if c.name == "NEST":
             c = dataclasses.replace(c, entries=(("p", "TAILM"), ("p", "NM")))
         elif c.name == "C1":
-            c = dataclasses.replace(c, entries=tuple(c.entries) + (("p", "LM"),))
+            # ... and a description that consists of two blanks
+            c = dataclasses.replace(c, entries=tuple(c.entries) + (("p", "LM"),), long="  ")
         conts.append(c)
     return dataclasses.replace(doc, containers=tuple(conts))
 
@@ -184,16 +185,23 @@ def _task_spellings(task):
                                                                     ("all", True, "title", False), (None, False, "lower", True), ("all", True, "upper", True)]
             variants = [v + ("plain",) for v in variants] + [(c, w, "lower", False, ts) for ts in ("charref", "entity", "cdata") for c, w in ((None, False), ("all", True))]
             # schema attributes that do not bear on decoding (signed, sizeInBits, initialValue on parameter types), alone and with the defaults left out
+            # the document stored in another character encoding (named in its XML declaration)
+            variants += [(None, False, "lower", False, "plain+utf16"), ("all", True, "lower", False, "charref+latin1"), (None, True, "upper", True, "plain+latin1")]
+            variants += [(None, False, "lower", False, "plain+padded"), ("all", False, "title", False, "cdata+padded+attrs")]
             variants += [(None, False, "lower", False, "plain+attrs"), (None, True, "title", True, "plain+attrs"), ("all", False, "lower", True, "entity+attrs")]
             for comments, ws, bool_case, omit, text_style in variants:
                 case = {"doc": di, "style": style, "comments": "all" if comments == "all" else sorted(comments) if comments else None,
                         "whitespace": ws, "bool_case": bool_case, "omit_defaults": omit, "text_style": text_style}
+                xenc = "UTF-16" if "+utf16" in text_style else "ISO-8859-1" if "+latin1" in text_style else "UTF-8"
                 xml = render_xml(doc, style, comments=comments, whitespace=ws, bool_case=bool_case, omit_defaults=omit, text_style=text_style.split("+")[0],
-                                 extra_attrs="+attrs" in text_style)
+                                 extra_attrs="+attrs" in text_style, xml_encoding=xenc, padded_numbers="+padded" in text_style)
                 t.evals += 1
-                case["form"] = ("BytesIO", "binary file object", "text file object", "str path", "pathlib.Path")[t.evals % 5]
+                form = t.evals % 5
+                if xenc != "UTF-8" and form == 2:
+                    form = 1   # a text file object is the caller's decoding, not the document's
+                case["form"] = ("BytesIO", "binary file object", "text file object", "str path", "pathlib.Path")[form]
                 try:
-                    d = load_form(xml, prefix, doc.root, t.evals % 5)
+                    d = load_form(xml, prefix, doc.root, form)
                     got = canon_digest(d)
                 except Exception as e:  # noqa: BLE001
                     t.outcomes["load-raised"] += 1
@@ -419,7 +427,7 @@ def run(ctx):
         "exhaustive": True,
         "bound": (f"spellings: {len(docs_)} base documents x 10 namespace renderings (prefix xtce, prefix q, an upper-case prefix XTCE, default namespace, none, none + xmlns:xsi, and the namespace bound twice on the root with the loader told the binding the elements do not use, the XTCE prefix next to a foreign default namespace, and next to five unrelated prefixes) x a comment at every inter-element position "
                   f"({'every position for prefix xtce/default/none, every third for q and none+xsi' if ctx.quick else 'every position'}), all at once, "
-                  f"x whitespace variants x boolean attribute spellings true, True, TRUE x (every attribute written | attributes that equal their documented default left out) x character spellings (plain | numeric character references in text and attribute values | general entities of an internal DTD subset | CDATA sections) x (schema attributes that do not bear on decoding absent | present), handed over in rotation as BytesIO / binary file object / text file object / str path / pathlib.Path; histories: every sequence of <= {3 if ctx.quick else 4} operations over a {nops}-operation menu "
+                  f"x whitespace variants x boolean attribute spellings true, True, TRUE x (every attribute written | attributes that equal their documented default left out) x character spellings (plain | numeric character references in text and attribute values | general entities of an internal DTD subset | CDATA sections) x document encodings (UTF-8, UTF-16, ISO-8859-1) x (schema attributes that do not bear on decoding absent | present), handed over in rotation as BytesIO / binary file object / text file object / str path / pathlib.Path; histories: every sequence of <= {3 if ctx.quick else 4} operations over a {nops}-operation menu "
                   "(15 target loads in different namespace conventions, two of them of documents with identical names and shape but different content, 2 loads of documents whose types carry two encodings in either order, a document the library warns about loaded by a caller who turns warnings into errors and by one who does not, 3 wrong-prefix loads, 4 loads that fail late inside the container/parameter set, loads that fail on a container that nests itself or is its own base, 2 malformed inputs) followed by every target load (histories of length 4: every third target; quick tier, length 3: every other history, followed by every other rendering target and all loose / strict targets); "
                   "breadth-first closure over the real class-level namespace state to a fixed point"),
         "rule": ("one evaluation = one load compared with the fresh-interpreter canonical form; states = reachable class-level (nsmap, prefix) states "
@@ -446,7 +454,9 @@ def replay(case):
     comments = "all" if comments == "all" else set(comments) if comments else None
     doc = base_docs()[case["doc"]]
     xml = render_xml(doc, case["style"], comments=comments, whitespace=case["whitespace"], bool_case=case.get("bool_case", "lower"), omit_defaults=case.get("omit_defaults", False),
-                     text_style=case.get("text_style", "plain").split("+")[0], extra_attrs="+attrs" in case.get("text_style", ""))
+                     text_style=case.get("text_style", "plain").split("+")[0], extra_attrs="+attrs" in case.get("text_style", ""),
+                     padded_numbers="+padded" in case.get("text_style", ""),
+                     xml_encoding="UTF-16" if "+utf16" in case.get("text_style", "") else "ISO-8859-1" if "+latin1" in case.get("text_style", "") else "UTF-8")
     try:
         forms = ("BytesIO", "binary file object", "text file object", "str path", "pathlib.Path")
         d = load_form(xml, ns_prefix_arg(case["style"]), doc.root, forms.index(case["form"]) if case.get("form") in forms else 0)
